@@ -8,8 +8,31 @@ func allProps() []PropSpec {
 				{Func: "ZZ_C07_H1", Pkg: "pkg/protocol", Quick: map[string]int{"N": 6}, Thorough: map[string]int{"N": 9}, Covers: []string{"reached-assert", "decoded-escape"}},
 				{Func: "ZZ_C07_H2", Pkg: "pkg/protocol", Quick: map[string]int{"N": 7}, Thorough: map[string]int{"N": 10}, Covers: []string{"reached-assert", "popped-segment"}},
 				{Func: "ZZ_C07_H3", Pkg: "pkg/protocol", Quick: map[string]int{"N": 5}, Thorough: map[string]int{"N": 7}, Covers: []string{"reached-assert"}},
+				{Func: "ZZ_C07_H4", Pkg: "pkg/common/utils", Quick: map[string]int{"N": 7}, Thorough: map[string]int{"N": 10}, Covers: []string{"reached-assert", "shortened"}},
 			},
 			Assumptions: []string{"inputs longer than the stated N bytes are outside the claim", "Windows backslash branch is constant-false on this platform"},
+		},
+		{
+			ID: "C08",
+			Harnesses: []HarnessSpec{
+				{Func: "ZZ_C08_H1", Pkg: "pkg/app", Quick: map[string]int{"N": 5}, Thorough: map[string]int{"N": 9}, Covers: []string{"reached-assert", "satisfiable", "suffix-form"}},
+				{Func: "ZZ_C08_H2", Pkg: "pkg/app", Quick: map[string]int{"N": 8}, Thorough: map[string]int{"N": 10}, Covers: []string{"reached-assert", "accepted"}},
+			},
+			Assumptions: []string{"only the range arithmetic of the file handler is encoded; the file system, cache, compression and index pages are outside the claim", "range text <= N bytes after 'bytes='; content length any non-negative int64"},
+		},
+		{
+			ID: "C03",
+			Harnesses: []HarnessSpec{
+				{Func: "ZZ_C03_URI", Pkg: "pkg/protocol", Quick: map[string]int{"N": 4}, Thorough: map[string]int{"N": 6}, Covers: []string{"reached-end"}},
+				{Func: "ZZ_C03_Args", Pkg: "pkg/protocol", Quick: map[string]int{"N": 5}, Thorough: map[string]int{"N": 7}, Covers: []string{"reached-end"}},
+				{Func: "ZZ_C03_Cookie", Pkg: "pkg/protocol", Quick: map[string]int{"N": 5}, Thorough: map[string]int{"N": 7}, Covers: []string{"reached-end"}},
+				{Func: "ZZ_C03_CookieAttr", Pkg: "pkg/protocol", Quick: map[string]int{"L": 8, "V": 2}, Thorough: map[string]int{"L": 11, "V": 3}, Covers: []string{"reached-end", "parsed-ok"}},
+				{Func: "ZZ_C03_ReqCookies", Pkg: "pkg/protocol", Quick: map[string]int{"N": 5}, Thorough: map[string]int{"N": 7}, Covers: []string{"reached-end"}},
+				{Func: "ZZ_C03_Trailers", Pkg: "pkg/protocol", Quick: map[string]int{"N": 4}, Thorough: map[string]int{"N": 5}, Covers: []string{"reached-end"}},
+				{Func: "ZZ_C03_Boundary", Pkg: "pkg/protocol", Quick: map[string]int{"N": 6}, Thorough: map[string]int{"N": 8}, Covers: []string{"reached-end"}},
+				{Func: "ZZ_C03_ParseUint", Pkg: "pkg/protocol", Quick: map[string]int{"N": 6}, Thorough: map[string]int{"N": 10}, Covers: []string{"reached-end", "parsed"}},
+			},
+			Assumptions: []string{"time.Parse/ParseInLocation is an opaque stub that succeeds or fails nondeterministically", "inputs longer than the stated bounds are outside the claim"},
 		},
 	}
 }
